@@ -29,9 +29,12 @@ for p in sorted(glob.glob("props/C*.json")):
 print(" ".join(sorted(set(b))))
 E
 )
-[ -z "$CLAIMED_VO" ] || (cd coq && timeout 3000 ./mk.sh $CLAIMED_VO)
+# A theorem or generated obligation that does not check is a verdict of the property's own ./check (which names it in
+# its replay), not a reason to stop the setup of the other nineteen: build with -k and carry on.
+[ -z "$CLAIMED_VO" ] || (cd coq && timeout 3000 ./mk.sh -k $CLAIMED_VO) || echo "setup: some claimed Coq targets did not build - the checks of those properties report which"
 [ -f harness/Cargo.lock ] || cp ../repo/Cargo.lock harness/Cargo.lock
 (cd harness && RUSTFLAGS="--cfg rip_verif" timeout 3000 cargo build --offline --bins) || \
-  (cd harness && RUSTFLAGS="--cfg rip_verif" timeout 3000 cargo build --offline $CLAIMED_BINS)
-(RUSTFLAGS="--cfg rip_verif" CARGO_TARGET_DIR="$(pwd)/harness/target-cli" timeout 3000 cargo build --offline --manifest-path ../repo/Cargo.toml -p rip-cli --bin rip)
+  (cd harness && RUSTFLAGS="--cfg rip_verif" timeout 3000 cargo build --offline $CLAIMED_BINS) || \
+  (cd harness && for b in $(echo "$CLAIMED_BINS" | sed 's/--bin//g'); do RUSTFLAGS="--cfg rip_verif" timeout 3000 cargo build --offline --bin "$b" || echo "setup: harness bin $b did not build - ./check of that property reports it"; done)
+(RUSTFLAGS="--cfg rip_verif" CARGO_TARGET_DIR="$(pwd)/harness/target-cli" timeout 3000 cargo build --offline --manifest-path ../repo/Cargo.toml -p rip-cli --bin rip) || echo "setup: the rip binary did not build - the checks that drive it (pre_cmds) report it"
 echo "setup ok"
